@@ -17,7 +17,7 @@ import tempfile
 import time
 
 HERE = os.path.dirname(os.path.dirname(os.path.abspath(__file__)))
-ALSO = {"C01": ["C10"], "C04": ["C13"]}
+ALSO = {"C01": ["C10"], "C03": ["C10"], "C04": ["C13"], "C10": ["C06"]}
 
 
 def sh(*a, **k):
